@@ -1067,4 +1067,74 @@ theorem div_lt_nchunks (c n i : Nat) (hc : 1 ≤ c) (hi : i < n) : i / c < nchun
   have := nchunks_mul_ge c n (by omega)
   omega
 
+/-- every step of the composed model in the running phase is a stutter or one step of the
+    protocol model on the component `p` -/
+theorem step_proto (s s' : St) (e : Ev) (hp : s.ph = 1) (h : step s e = some s') :
+    s'.p = s.p ∨ ∃ e', Bulk.step s.p e' = some s'.p := by
+  cases e <;> simp only [step, popNone] at h <;> (repeat' split at h) <;>
+    first
+    | (simp at h; done)
+    | (simp only [Option.some.injEq] at h; subst h
+       first
+       | exact Or.inl rfl
+       | exact Or.inr ⟨_, by assumption⟩
+       | (exfalso; omega))
+
+/-- the protocol component of a running composed state is reachable in the protocol model from
+    the queues the generated arithmetic initialised -/
+def ProtoReach (s : St) : Prop :=
+  s.ph = 1 → ∃ plog, runLog Bulk.step (Bulk.init s.w s.p.L (cutsOf s.S s.w s.n s.c)) plog = some s.p
+
+
+theorem step_c1 (s s' : St) (e : Ev) (hp : s.ph = 1) (h : step s e = some s') : s'.c = s.c := by
+  cases e <;> simp only [step, popNone] at h <;> (repeat' split at h) <;>
+    first | (simp at h; done) | (simp only [Option.some.injEq] at h; subst h; first | rfl | (exfalso; omega))
+
+theorem step_to_ph1 (s s' : St) (e : Ev) (hp : s.ph ≠ 1) (h : step s e = some s') (h1 : s'.ph = 1) :
+    s'.p = Bulk.init s'.w s'.p.L (cutsOf s'.S s'.w s'.n s'.c) := by
+  cases e <;> simp only [step, popNone] at h <;> (repeat' split at h) <;>
+    first
+    | (simp at h; done)
+    | (simp only [Option.some.injEq] at h; subst h
+       first
+       | rfl
+       | (exfalso; dsimp only at h1; omega))
+
+theorem protoReach_step (s s' : St) (e : Ev) (hr : ProtoReach s) (h : step s e = some s') :
+    ProtoReach s' := by
+  intro h1
+  by_cases hp : s.ph = 1
+  · obtain ⟨plog, hl⟩ := hr hp
+    obtain ⟨eS, ew, en, _⟩ := step_params s s' e h
+    have ec := step_c1 s s' e hp h
+    rcases step_proto s s' e hp h with hs | ⟨e', he'⟩
+    · exact ⟨plog, by rw [eS, ew, en, ec, hs]; exact hl⟩
+    · have eL := (Bulk.step_params _ _ _ he').2.1
+      refine ⟨plog ++ [e'], ?_⟩
+      rw [eS, ew, en, ec, eL, runLog_append, hl]
+      simp [runLog, he']
+  · exact ⟨[], by rw [← step_to_ph1 s s' e hp h h1]; rfl⟩
+
+theorem protoReach_of_accepted {S : CTy} {w n L : Nat} {v : Int} {log : List Ev} {s : St}
+    (h : runLog step (init S w n L v) log = some s) : ProtoReach s :=
+  inv_of_runLog ProtoReach (fun s e s' => protoReach_step s s' e)
+    (by intro h1; simp [init] at h1) h
+
+theorem L_of_accepted {S : CTy} {w n L : Nat} {v : Int} {log : List Ev} {s : St}
+    (h : runLog step (init S w n L v) log = some s) : s.p.L = L := by
+  refine inv_of_runLog (fun s => s.p.L = L) ?_ rfl h
+  intro s e s' hf hs
+  by_cases hp : s.ph = 1
+  · rcases step_proto s s' e hp hs with h1 | ⟨e', he'⟩
+    · rw [h1]; exact hf
+    · rw [(Bulk.step_params _ _ _ he').2.1]; exact hf
+  · revert hf
+    cases e <;> simp only [step, popNone] at hs <;> (repeat' split at hs) <;>
+      first
+      | (simp at hs; done)
+      | (simp only [Option.some.injEq] at hs; subst hs; intro hf
+         first
+         | exact hf
+         | (exfalso; omega))
+
 end PikaVerif.BulkC
